@@ -326,7 +326,7 @@ pub const C37_PROGRAMS: [&str; 8] = [
 /// harness's own complete DFS over the same decision tree only.
 pub const C37_DFS_ONLY: [&str; 5] = ["keyed_batch", "keyed_batch_unordered", "keyed_snapshot", "two_input_tick", "cluster_batch"];
 
-fn program_case(name: &str, n: usize, with_expected: bool) -> Stats {
+pub fn program_case(name: &str, n: usize, with_expected: bool) -> Stats {
     let mut st = Stats::new();
     let e = corpus::build(name, n);
     // (1) the repo's exhaustive search
@@ -434,7 +434,28 @@ pub fn run(rep: &mut Report) {
     let t = std::time::Instant::now();
     let mut names: Vec<(&str, bool)> = C37_PROGRAMS.iter().map(|n| (*n, true)).collect();
     names.extend(C37_DFS_ONLY.iter().map(|n| (*n, false)));
-    let s = par_map(names.len(), ncpu().min(6), |i| program_case(names[i].0, prog_n(names[i].0, thorough), names[i].1));
+    let s = par_map(names.len(), ncpu().min(6), |i| {
+        let (name, with_expected) = names[i];
+        let n = prog_n(name, thorough);
+        match crate::jobs::spawn_job(&json!({"job": "c37prog", "program": name, "n": n, "with_expected": with_expected})) {
+            Ok(r) => {
+                for l in r.lines {
+                    println!("{l}");
+                }
+                r.stats
+            }
+            Err(crash) => {
+                let mut st = Stats::new();
+                st.eval();
+                st.violation(
+                    format!("C37/prog/{name}/simulator-crash"),
+                    format!("program {name}: the process running exhaustive() died: {crash}"),
+                    json!({"section": "programs", "program": name, "n": n}),
+                );
+                st
+            }
+        }
+    });
     println!("  program level: {} programs, {:.1}s", s.evaluations, t.elapsed().as_secs_f64());
     rep.section("program_level", s);
 }
